@@ -318,6 +318,25 @@ StepEnv(ln) ==
      /\ frames' = (IF ln.op = "Wh" THEN [frames EXCEPT ![2] = Append(@, ln.len)] ELSE frames)
      /\ Keep
 
+\* end of an event-loop run (harness command L): two applications that trust nothing but poll(xcm_fd) have
+\* run until their goals were met or until both descriptors stayed quiet (stk = 1).  C04: if the run got
+\* stuck while both ends were alive and something was still owed - a message accepted but not delivered,
+\* a send still wanted, a close not yet seen - a wake-up was lost.
+StepQuiesce(ln) ==
+  LET cs == IF mm THEN <<>> ELSE ReadyChecks(ln, eps)
+      both == ln.alive[1] = 1 /\ ln.alive[2] = 1
+      owedData == both /\ (ln.und[1] + ln.und[2] + ln.td[1] + ln.td[2] > 0)
+      owedClose == \E e \in 1..2 : ln.clsd[e] = 1 /\ ln.alive[Other(e)] = 1 /\ ln.eofs[Other(e)] = 0
+      hc == <<Chk(ln.fdc[1] = 0 /\ ln.fdc[2] = 0, "C16.fd_changed", 0, ln.fdc),
+              Chk(~(ln.stk = 1 /\ owedData), "C04.lost_wakeup", <<"und", ln.und, "todo", ln.td>>, ln.cnd),
+              Chk(~(ln.stk = 1 /\ owedClose), "C04.lost_wakeup", <<"close", ln.clsd>>, ln.eofs)>>
+      all == hc \o cs
+  IN /\ Report(ln, all)
+     /\ mm' = (mm \/ IsMM(all))
+     /\ nv' = nv + Len(Failed(all))
+     /\ UNCHANGED <<eps, nrcv, hist, frames>>
+     /\ Keep
+
 StepCrash(ln) ==
   /\ PrintT(<<"@V", ln.x, ln.n, "CRASH", 0, ln.why>>)
   /\ nv' = nv + 1
@@ -419,6 +438,7 @@ Next ==
        [] ln.op = "bs0" -> StepBlkSend0(ln)
        [] ln.op = "bs1" -> StepBlkSend1(ln)
        [] ln.op = "br1" -> StepBlkRecv1(ln)
+       [] ln.op = "q" -> StepQuiesce(ln)
        [] ln.op = "crash" -> StepCrash(ln)
        [] OTHER -> UNCHANGED <<tp, raw, eps, frames, nrcv, hist, mm, nv>>
 
